@@ -536,6 +536,24 @@ Definition direct_exchange (srv cli : session) (e : entry) : res (option (list Z
   | None => Err 1
   end.
 
+(* ---- the migration hand-off end to end ------------------------------------------------------
+   c2/session.go MigrateProfile (old process: writeDeviceInfo(infoMigrate) into the pipe), c2/c2.go
+   LoadContext (new process: a fresh Session with the profile's defaults reads infoMigrate, takes the
+   migrated ID as the process identity - local.UUID and local.Device.ID are overwritten with it - and
+   THEN snapshots the local machine as its Device, so Device.ID = Session.ID = the migrated ID; it
+   reports writeDeviceInfo(infoSyncMigrate) as the result of the MvMigrate job), handleInfoResult
+   (server: readDeviceInfo(infoSyncMigrate)).  localm = the machine details of the new process. *)
+Definition with_id (m : machine) (i : list Z) : machine :=
+  mkMachine i (m_system m) (m_pid m) (m_ppid m) (m_user m) (m_version m) (m_host m) (m_elev m) (m_caps m) (m_net m).
+Definition load_context (new0 : session) (localm : machine) (pipe : list Z) : res (session * list pdata) :=
+  do '(r, _) <- read_info flat_ops infoMigrate new0 pipe;
+  let s1 := fst r in
+  Ok (set_dev s1 (with_id localm (s_id s1)), snd r).
+Definition migrate_exchange (old new0 : session) (localm : machine) (srv : session) : res (session * list pdata * session) :=
+  do '(ns, px) <- load_context new0 localm (write_info infoMigrate old);
+  do '(r, _) <- read_info flat_ops infoSyncMigrate srv (write_info infoSyncMigrate ns);
+  Ok (ns, px, fst r).
+
 (* ---- correspondence cases ----------------------------------------------------------------
    Long byte strings are described by a generator evaluated here (the harness builds the same
    bytes): byte i of gen_bytes n a b is (a + i*b) mod 256. *)
@@ -602,7 +620,9 @@ Inductive case :=
   (* real task.Script through the client's muxHandleScript, SvResync through receiveSingle, result through handle *)
 | CDirect (srv cli : session) (e : entry) (out : res (option (list Z) * session * session))
   (* one real task through muxHandleInternal and handleInfoResult *)
-| CSites (writes reads : list (site * kexpr)).
+| CSites (writes reads : list (site * kexpr))
+| CMigrate (old new0 : session) (localm : machine) (srv : session) (out : res (session * list pdata * session)).
+  (* a real in-process migration: MigrateProfile -> pipe -> LoadContext -> MvMigrate result -> server *)
   (* the call sites of writeDeviceInfo / readDeviceInfo found in the c2 sources of this run *)
   (* real proxy operations h on the client s0, then writeDeviceInfo(k): bytes, and what r0 reads back
      through a stream split sp *)
@@ -649,6 +669,10 @@ Definition check (c : case) : bool :=
   | CTime srv cli o out => tobs_eqb (exchange srv cli o) out
   | CScript stop srv cli es out => sobs_eqb (script_exchange stop srv cli es) out
   | CDirect srv cli e out => sobs_eqb (direct_exchange srv cli e) out
+  | CMigrate old new0 localm srv out =>
+    res_eqb (fun x y => session_eqb (fst (fst x)) (fst (fst y)) && list_eqb pdata_eqb (snd (fst x)) (snd (fst y)) &&
+                        session_eqb (snd x) (snd y))
+            (match migrate_exchange old new0 localm srv with Err _ => Err 1 | x => x end) out
   | CSites ws rs =>
     list_eqb sk_eqb ws (map (fun p => (pr_site p, pr_kind p)) producers) && list_eqb sk_eqb rs consumers
   | CProxyHist s0 h k r0 sp out rd =>
